@@ -368,7 +368,8 @@ def sign_match_cases(rng, res, n):
             variant = rng.choice(["sign_verify_ok", "verify_wrong_key", "verify_unsigned", "verify_with_append", "both_key_kinds",
                                   "missing_file", "sign_bad_key", "link_two_keys", "match_equal", "match_changed", "match_missing_link", "match_other_algorithm", "match_no_digest", "match_extra_file",
                                   "link_append", "link_one_key", "verify_gpg_no_id", "verify_with_output", "no_key_arg",
-                                  "verify_with_empty_output", "verify_many", "verify_many", "verify_many", "link_verify_gpg_no_id"])
+                                  "verify_with_empty_output", "verify_many", "verify_many", "verify_many", "link_verify_gpg_no_id",
+                                  "verify_both_key_kinds", "verify_both_key_kinds"])
             if variant in ("sign_verify_ok", "verify_wrong_key"):
                 _av = ["-f", "l.layout", "-k", priv_path(k)]
                 st, _o, _e = cli.run_main("in_toto_sign", _av)
@@ -390,6 +391,19 @@ def sign_match_cases(rng, res, n):
                 _av = ["-f", "l.layout", "-k", priv_path(k), "-g"]
                 st, _o, _e = cli.run_main("in_toto_sign", _av)
                 record(res, "sign", {"variant": variant}, st, "usage", argv=_av, file_kind="layout")
+            elif variant == "verify_both_key_kinds":
+                # --verify with a key file that did sign and a gpg key that did not (either order): whatever the tool makes
+                # of the two options together, a key was given that has no valid signature - not a success; the front end
+                # treats the combination as a usage error
+                _av = ["-f", "l.layout", "-k", priv_path(k)]
+                st, _o, _e = cli.run_main("in_toto_sign", _av)
+                record(res, "sign", {"variant": variant, "dsse": dsse, "key": k.kind}, st, "success", argv=_av, file_kind="layout")
+                if W.gpg_available():
+                    g = W.gpg_key("no_sub")
+                    kpart, gpart = ["-k", write_pub_pem(k, d)], ["-g", g.keyid, "--gpg-home", g.gpg_home]
+                    _av = ["-f", "l.layout", "--verify"] + (kpart + gpart if rng.random() < 0.5 else gpart + kpart)
+                    st, _o, _e = cli.run_main("in_toto_sign", _av)
+                    record(res, "sign_verify", {"variant": variant, "dsse": dsse, "key": k.kind}, st, "usage", argv=_av, file_kind="layout")
             elif variant == "missing_file":
                 _av = ["-f", "nope.layout", "-k", priv_path(k)]
                 st, _o, _e = cli.run_main("in_toto_sign", _av)
